@@ -324,6 +324,11 @@ def run_harness(driver, scens, tag, timeout=600):
                 res[parts[1]] = {"adr": ([], []), "ctor": {}, "obs": [parts[2]], "done": True, "error": None, "sched": None,
                                  "bobs": None, "pkobs": parts[2]}
                 continue
+            if line.startswith("kobs "):
+                parts = line.split(" ", 2)
+                res[parts[1]] = {"adr": ([], []), "ctor": {}, "obs": [parts[2]], "done": True, "error": None, "sched": None,
+                                 "bobs": None, "kobs": parts[2]}
+                continue
             if line.startswith("qobs "):
                 parts = line.split(" ", 2)
                 res[parts[1]] = {"adr": ([], []), "ctor": {}, "obs": [parts[2]], "done": True, "error": None, "sched": None,
